@@ -612,3 +612,188 @@ Qed.
 
 Lemma emitted_parse md mp s : Inv md mp s -> parse (emitted s) = completed s.
 Proof. intros [_ (_ & (ps & Hpar & _) & _)]. unfold parse. now rewrite Hpar. Qed.
+
+(** fail-stop at the port: once the credit pool is closed (the remote receiver closed or dropped, or the
+    dispatcher and with it the pool is gone) an operation waiting for credits is woken and ends with an
+    error instead of waiting forever *)
+Lemma closed_wakes_waiter s g :
+  closed s = Some g -> running (op s) = true -> needs_credit (op s) = true ->
+  exists s', step_opt s TReq = Some s' /\ op s' = SIdle.
+Proof.
+  intros Hc Hr Hn. cbn [step_opt].
+  destruct (op s) as [|cs rest empty first a fin|first a|rest first a] eqn:Eop; try discriminate; cbn [needs_credit] in Hn.
+  - apply N.eqb_eq in Hn. subst a. rewrite Hc. eexists. split; [reflexivity|]. reflexivity.
+  - rewrite Hn, Hc. eexists. split; [reflexivity|]. reflexivity.
+Qed.
+
+(** ** end-of-stream: the [Finished] marker travels the same FIFO as the data *)
+Lemma frame_eq_fin f : f = FFin \/ f <> FFin.
+Proof. destruct f; [right|right|left]; congruence. Qed.
+
+Lemma handle_any_finished r f : f <> FFin -> finished (fst (handle_any r f)) = finished r.
+Proof.
+  intros Hf. destruct f as [fi la b|fi la ps|]; [| |congruence]; unfold handle_any.
+  - destruct (if fi then RData [] 0 else rcving r); try reflexivity.
+    repeat match goal with |- context [if ?b then _ else _] => destruct b end; reflexivity.
+  - destruct (if fi then RReq [] else rcving r); try reflexivity.
+    repeat match goal with |- context [if ?b then _ else _] => destruct b end; reflexivity.
+Qed.
+
+Lemma handle_chunk_finished r f : f <> FFin -> finished (fst (handle_chunk r f)) = finished r.
+Proof.
+  intros Hf. destruct f as [fi la b|fi la ps|]; [| |congruence]; unfold handle_chunk.
+  - destruct (rcving r), fi; reflexivity.
+  - destruct (rcving r); reflexivity.
+Qed.
+
+Lemma drain_finished acc r : finished (snd (fst (drain acc r))) = finished r.
+Proof. unfold drain. destruct (rcving r) as [| | q c|]; try reflexivity. destruct c; reflexivity. Qed.
+
+Lemma feed_any_finished r f : f <> FFin -> finished (snd (fst (feed_any r f))) = finished r.
+Proof.
+  intros Hf. unfold feed_any. pose proof (handle_any_finished r f Hf) as H.
+  destruct (handle_any r f) as [r1 o1]. cbn [fst] in H.
+  destruct o1 as [[]|]; cbn [fst snd]; try exact H. rewrite drain_finished. exact H.
+Qed.
+
+Lemma feed_finished_frame m r f m' r' o :
+  feed m r f = (m', r', o) -> finished r = false -> finished r' = true -> f = FFin.
+Proof.
+  intros H Hf Hf'. destruct (frame_eq_fin f) as [->|Hne]; [reflexivity|]. exfalso.
+  assert (Hx : finished r' = false); [|congruence].
+  replace r' with (snd (fst (feed m r f))) by now rewrite H.
+  unfold feed. rewrite Hf. destruct m as [|acc]; [now rewrite feed_any_finished|].
+  pose proof (handle_chunk_finished r f Hne) as Hc.
+  destruct (handle_chunk r f) as [r1 o1]. cbn [fst] in Hc. rewrite Hf in Hc.
+  destruct o1 as [[]|]; cbn [fst snd]; try exact Hc.
+  - rewrite drain_finished. exact Hc.
+  - destruct (restarted r1) as [[b0 l0]|]; [|exact Hc].
+    rewrite feed_any_finished by discriminate. cbn [finished set_restarted]. exact Hc.
+Qed.
+
+Definition inv_fin (s : st) : Prop :=
+  (finished (rcv s) = true -> In FFin (consumed s)) /\
+  (tx_dropped s = false -> ~ In FFin (emitted s)) /\
+  (tx_dropped s = true -> exists l, emitted s = l ++ [FFin] /\ ~ In FFin l).
+
+Lemma inv_fin_init c md mp : inv_fin (init c md mp).
+Proof. unfold inv_fin, init; prj. cbn. repeat split; intros; try discriminate; auto. Qed.
+
+Lemma try_chunks_no_fin fuel ck data first slots : ~ In FFin (fst (try_chunks fuel ck data first slots)).
+Proof.
+  revert data first slots; induction fuel as [|fuel IH]; intros data first slots; cbn [try_chunks]; [cbn; tauto|].
+  destruct data as [|x d]; [cbn; tauto|]. destruct (slots =? 0); [cbn; tauto|].
+  match goal with |- context [try_chunks fuel ck ?d ?f ?sl] => specialize (IH d f sl); destruct (try_chunks fuel ck d f sl) as [fs ok] end.
+  cbn [fst] in *. intros [H|H]; [discriminate|tauto].
+Qed.
+
+Lemma in_snoc_not {A} (x y : A) l : ~ In x l -> x <> y -> ~ In x (l ++ [y]).
+Proof. intros H1 H2 H. apply in_app_or in H as [H|[H|[]]]; auto. Qed.
+
+Lemma inv_fin_step md mp s a s' :
+  inv_str md mp s -> inv_fin s -> step_opt s a = Some s' -> inv_fin s'.
+Proof.
+  intros (_ & (ps & _ & _ & Hdr2 & _) & _) (Hfin & Hnd & Hd) H.
+  (* what can change: [emitted]/[tx_dropped] (sending side) and [consumed]/[rcv] (RConsume) *)
+  assert (Hkeep : emitted s' = emitted s -> tx_dropped s' = tx_dropped s -> consumed s' = consumed s -> rcv s' = rcv s -> inv_fin s').
+  { intros E1 E2 E3 E4. unfold inv_fin. rewrite E1, E2, E3, E4. auto. }
+  destruct (tx_dropped s) eqn:Et.
+  - (* the sender is gone: nothing is emitted any more *)
+    pose proof (Hdr2 eq_refl) as Hop.
+    destruct a; unfold step_opt in H; rewrite ?Hop, ?Et in H; try discriminate;
+      try solve [cases; apply Hkeep; prj; auto].
+    (* RConsume *)
+    destruct (rxq s) as [|f q]; [discriminate|]. destruct (ret_pending s); [discriminate|].
+    destruct (feed (cm s) (rcv s) f) as [[m' r'] o] eqn:Ef.
+    assert (Hc : finished r' = true -> In FFin (consumed s ++ [f])).
+    { intros Hf'. destruct (finished (rcv s)) eqn:Ef0.
+      - apply in_or_app. left. auto.
+      - rewrite (feed_finished_frame _ _ _ _ _ _ Ef Ef0 Hf'). apply in_or_app. right. now left. }
+    cases; unfold inv_fin; prj; rewrite Et; repeat split; auto; intros; discriminate.
+  - specialize (Hnd eq_refl).
+    assert (Hemit : forall f, f <> FFin -> ~ In FFin (emitted s ++ [f])) by (intros; apply in_snoc_not; auto).
+    destruct a; unfold step_opt in H; rewrite ?Et in H.
+    all: try solve [cases; apply Hkeep; prj; auto].
+    + (* UTrySend *)
+      cases; try solve [apply Hkeep; prj; auto].
+      * unfold inv_fin; prj. rewrite Et. repeat split; auto; [intros _; apply Hemit; discriminate|intros; discriminate].
+      * match goal with E : try_chunks ?f ?c ?d ?fi ?sl = (?fs, ?ok) |- _ =>
+          pose proof (try_chunks_no_fin f c d fi sl) as Hnf; rewrite E in Hnf; cbn [fst] in Hnf end.
+        destruct b; unfold inv_fin; prj; rewrite Et; (repeat split; auto;
+          [intros _ Hin; apply in_app_or in Hin as [Hin|Hin]; [now apply Hnd|now apply Hnf] | intros; discriminate]).
+    + (* UDropTx *)
+      cases. unfold inv_fin; prj. repeat split; auto; [intros; discriminate|]. intros _. exists (emitted s). split; auto.
+    + (* TEmit *)
+      destruct (slot_free s); [|discriminate].
+      destruct (op s) as [|cs rest empty first a0 fin|first a0|rest first a0]; try discriminate.
+      * destruct (a0 =? 0); [discriminate|].
+        destruct empty; [destruct cs; [destruct fin|]|];
+          try (injection H as <-; unfold inv_fin; prj; rewrite Et; repeat split; auto;
+               [intros _; apply Hemit; discriminate | intros; discriminate]).
+        destruct (skipn _ rest); [destruct cs; [destruct fin|]|]; injection H as <-; unfold inv_fin; prj; rewrite Et;
+          (repeat split; auto; [intros _; apply Hemit; discriminate | intros; discriminate]).
+      * destruct (a0 <? 4); [discriminate|].
+        destruct (skipn _ rest); injection H as <-; unfold inv_fin; prj; rewrite Et;
+          (repeat split; auto; [intros _; apply Hemit; discriminate | intros; discriminate]).
+    + (* RConsume *)
+      destruct (rxq s) as [|f q]; [discriminate|]. destruct (ret_pending s); [discriminate|].
+      destruct (feed (cm s) (rcv s) f) as [[m' r'] o] eqn:Ef.
+      assert (Hc : finished r' = true -> In FFin (consumed s ++ [f])).
+      { intros Hf'. destruct (finished (rcv s)) eqn:Ef0.
+        - apply in_or_app. left. auto.
+        - rewrite (feed_finished_frame _ _ _ _ _ _ Ef Ef0 Hf'). apply in_or_app. right. now left. }
+      cases; unfold inv_fin; prj; rewrite Et; repeat split; auto; intros; discriminate.
+Qed.
+
+Lemma fin_last_unique {A} (x : A) (a b l : list A) :
+  a ++ b = l ++ [x] -> In x a -> ~ In x l -> b = [].
+Proof.
+  revert a b. induction l as [|y l IH]; intros a b H Hin Hnl.
+  - destruct a as [|a0 a]; [destruct Hin|]. cbn in H. injection H as -> H.
+    destruct a; [exact H|discriminate].
+  - destruct a as [|a0 a]; [destruct Hin|]. cbn in H. injection H as -> H.
+    destruct Hin as [->|Hin]; [exfalso; apply Hnl; now left|].
+    apply (IH a b H Hin). intros Hx. apply Hnl. now right.
+Qed.
+
+(** C11: when the receiver sees end-of-stream it has obtained every completed send *)
+Lemma eos_complete md mp s :
+  Inv md mp s -> inv_fin s -> finished (rcv s) = true ->
+  data_of (delivered_msgs (delivered s)) = data_of (completed s) /\ rxq s = [] /\ link s = [] /\ evq s = [].
+Proof.
+  intros HI (Hfin & Hnd & Hd) Hf. pose proof HI as [_ (Hfifo & (ps & Hpar & Hdr & Hdr2 & _) & Hfeed)].
+  specialize (Hfin Hf).
+  destruct (tx_dropped s) eqn:Et.
+  2:{ exfalso. apply (Hnd eq_refl). rewrite <- Hfifo. apply in_or_app. now left. }
+  destruct (Hd eq_refl) as (l & Hl & Hnl).
+  assert (Hrest : rxq s ++ link s ++ evq s = []).
+  { eapply fin_last_unique; [|exact Hfin|exact Hnl]. rewrite <- Hl. exact Hfifo. }
+  apply app_eq_nil in Hrest as [H1 Hrest]. apply app_eq_nil in Hrest as [H2 H3].
+  split; [|auto]. apply (delivery_complete md mp s HI H1 H2 H3). left. now apply Hdr2.
+Qed.
+
+Lemma inv_fin_run c md mp acts : cfg_ok c -> inv_fin (run acts (init c md mp)).
+Proof.
+  intros Hc. unfold run.
+  assert (H0 : Inv md mp (init c md mp) /\ inv_fin (init c md mp)).
+  { split; [|apply inv_fin_init]. split; [split; [now apply inv_num_init|exact I]|apply inv_str_init]. }
+  revert H0. generalize (init c md mp) as s. induction acts as [|a acts IH]; intros s [HI Hf]; cbn [fold_left]; auto.
+  apply IH. split; [now apply Inv_step|].
+  unfold step. destruct (step_opt s a) as [s'|] eqn:E; auto.
+  destruct HI as [_ Hs]. eapply inv_fin_step; eauto.
+Qed.
+
+(** after the pool is closed no new send completes: it is started, woken and ends with an error *)
+Lemma send_after_close_fails s g data :
+  closed s = Some g -> op s = SIdle -> tx_dropped s = false -> data <> [] ->
+  let s' := run [USend data; TReq] s in
+  op s' = SIdle /\ completed s' = completed s /\ emitted s' = emitted s /\ pool s' = pool s.
+Proof.
+  intros Hc Ho Ht Hd. destruct data as [|x d]; [congruence|].
+  set (s1 := s <| op := SData false (x :: d) false true 0 true |> <| cur := [] |>).
+  assert (E1 : step s (USend (x :: d)) = s1).
+  { unfold step. cbn [step_opt]. now rewrite Ho, Ht. }
+  assert (E2 : step s1 TReq = finish_op s1 0 None).
+  { unfold step. cbn [step_opt]. subst s1. prj. now rewrite Hc. }
+  unfold run. cbn [fold_left]. rewrite E1, E2. subst s1. prj. repeat split; try reflexivity. lia.
+Qed.
